@@ -94,6 +94,22 @@ def srcOfFS (S : FS) (rs : FPath) (p : FPath) : Option SEntry := (S.get (rs ++ p
 def lsOfFS (S : FS) (rs : FPath) (f : Nat) : List (FPath × SEntry) :=
   (listNodes S f rs).filterMap fun e => (sentryOf e.2).map fun s => (e.1.drop rs.length, s)
 
+/-! ### listings under filters -/
+
+/-- the listing under filters: `keep` judges the path *relative to the root `r`*; an entry that is not kept is neither
+reported nor — if it is a folder — entered (`filter_func` of `doer.rs` inside `parallel_walk_dir`) -/
+def listNodesF (keep : FPath → Bool) (r : FPath) (fs : FS) : Nat → FPath → List (FPath × Node)
+  | 0, _ => []
+  | f + 1, dir => (fs.childrenOf dir).flatMap fun e =>
+      if keep (e.1.drop r.length) then e :: (if e.2 = .folder then listNodesF keep r fs f e.1 else []) else []
+
+/-- what the walk can reach: a relative path all of whose non-empty prefixes are kept -/
+def visOf (keep : FPath → Bool) (p : FPath) : Bool :=
+  (List.range p.length).all fun k => keep (p.take (k + 1))
+
+def lsOfFSF (keep : FPath → Bool) (S : FS) (rs : FPath) (f : Nat) : List (FPath × SEntry) :=
+  (listNodesF keep rs S f rs).filterMap fun e => (sentryOf e.2).map fun s => (e.1.drop rs.length, s)
+
 /-- what a creation leaves at its path -/
 def written : SEntry → Node
   | .file b m => .file b (.at m)
